@@ -595,6 +595,9 @@ def c14_sequences(inp):
     ignore_T = inp.get("ignore_T", True)      # the duration defect of _decimate_data is a recorded finding
     ops = [("decimate", dict(q=2)), ("decimate", dict(q=3, ftype="fir")), ("decimate", dict(q=2, n=4, zero_phase=False)),
            ("detrend", dict()), ("detrend", dict(type="constant")), ("filter", dict(Wn=2.0, order=4, btype="lowpass")),
+           # scipy's documented keyword that lets detrend work in place: accepted, and still neither the user's arrays nor the stored
+           # initial copy may change (first operation: the setup still holds the user's own array; after a rollback: the restored one)
+           ("detrend", dict(type="linear", overwrite_data=True)),
            ("rollback", dict()), ("add", dict())]
 
     def model_apply(data, fs, op, kw):
@@ -603,7 +606,7 @@ def c14_sequences(inp):
             q = k2.pop("q")
             return signal.decimate(data, q, axis=0, **k2), fs / q
         if op == "detrend":
-            return signal.detrend(data, axis=0, **kw), fs
+            return signal.detrend(data, axis=0, **{k_: v_ for k_, v_ in kw.items() if k_ != "overwrite_data"}), fs
         if op == "filter":
             sos = signal.butter(kw["order"], kw["Wn"], btype=kw["btype"], output="sos", fs=fs)
             return signal.sosfiltfilt(sos, data, axis=0), fs
@@ -631,7 +634,7 @@ def c14_sequences(inp):
     checked = 0
     for L in (1, 2, 3):
         for seq in itertools.product(range(len(ops)), repeat=L):
-            if L == 3 and (seq[0] > 5 or checked > 700):
+            if L == 3 and (seq[0] > 6 or checked > 900):
                 continue
             for kind in ("single", "multi"):
                 fs0 = 40.0
@@ -702,7 +705,7 @@ def c14_sequences(inp):
                                                                       f"fs/dt/Ndats/Ts = {st.fs}/{st.dt}/{list(st.Ndats)}/{[round(t, 4) for t in st.Ts]}, "
                                                                       f"model {mfs}/{1 / mfs}/{[m.shape[0] for m in mds]}/{[round(m.shape[0] / mfs, 4) for m in mds]}"}
                             if not (np.array_equal(d1, keeps[0]) and np.array_equal(d2, keeps[1])
-                                    and np.array_equal(st._initial_datasets[0], keeps[0])):
+                                    and np.array_equal(st._initial_datasets[0], keeps[0]) and np.array_equal(st._initial_datasets[1], keeps[1])):
                                 return {"reproduced": True, "detail": f"PreGER after {desc}: user arrays or initial copies modified"}
                     except Exception as e:      # noqa: BLE001
                         return {"reproduced": True, "detail": f"MultiSetup_PreGER: {type(e).__name__} ({e}) during {desc}"}
@@ -2113,7 +2116,9 @@ def c03_exact(inp):
             rows_glob = list(range(nref)) + list(range(start, start + nmov[s_]))
             start += nmov[s_]
             gain = 10.0 ** rng.uniform(-2, 2)
-            y = _free_response(rng, lam, phi[rows_glob, :], n, fs, gain=gain)
+            # records of different lengths (two trials out of three): nothing in the merge may depend on which setup is the longest
+            n_s = n if trial % 3 == 0 else int(rng.randint(600, 1200))
+            y = _free_response(rng, lam, phi[rows_glob, :], n_s, fs, gain=gain)
             nch = len(rows_glob)
             # references at arbitrary positions of the channel list, listed in arbitrary order
             pos = rng.permutation(nch)[:nref]
@@ -2152,7 +2157,7 @@ def c03_exact(inp):
             err = _match_modes(f, xi, phi, Fn[keep], Xi[keep], Phi[keep], f"{cls.__name__}({meth}) at order {col}", tol, tol, tol)
             if err:
                 return {"reproduced": True, "detail": err + f" ({ctx})"}
-    return {"reproduced": False, "detail": f"{ntr} noise-free multi-setup systems: SSIcov_MS(cov_mm) and SSIdat_MS recover the global f, xi and shapes (references first, then roving per setup) at order 2m, independent of per-setup gains"}
+    return {"reproduced": False, "detail": f"{ntr} noise-free multi-setup systems: SSIcov_MS(cov_mm) and SSIdat_MS recover the global f, xi and shapes (references first, then roving per setup) at order 2m, independent of per-setup gains and record lengths"}
 
 
 
